@@ -19,11 +19,25 @@ pub unsafe extern "C" fn scrypt(
     derived_key: *mut c_uchar,
     dk_len: size_t,
 ) {
-    let kpass = std::slice::from_raw_parts(password, password_len);
+    // C callers pass NULL for empty buffers. A null pointer is never valid for
+    // from_raw_parts, even with a length of zero.
+    let kpass: &[u8] = if password_len == 0 {
+        &[]
+    } else {
+        std::slice::from_raw_parts(password, password_len)
+    };
 
-    let ksalt = std::slice::from_raw_parts(salt, salt_len);
+    let ksalt: &[u8] = if salt_len == 0 {
+        &[]
+    } else {
+        std::slice::from_raw_parts(salt, salt_len)
+    };
 
-    let kderived_key = std::slice::from_raw_parts_mut(derived_key, dk_len);
+    let kderived_key: &mut [u8] = if dk_len == 0 {
+        &mut []
+    } else {
+        std::slice::from_raw_parts_mut(derived_key, dk_len)
+    };
 
     let dk = ktl_scrypt(kpass, ksalt, n, r, p, kderived_key.len());
 
